@@ -47,12 +47,14 @@ Section Cache.
 End Cache.
 
 (** [getPathAndLine]: V8 positions are 1-based, the map is 0-based; the original source is joined
-    to the file's folder by the caller (here: returned as is). *)
+    to the file's folder by the caller (here: returned as is).  Column 0 means "no column": the whole
+    line is looked up (JavaScript's [Infinity]; here a column no map has: the decoder's are below 2^32). *)
+Definition no_column : N := 4294967296.
 Definition path_and_line (c : list (string * list (@token (string * N * N)))) (f : string) (line col : N)
   : string * N * N :=
   match cache_get c f with
   | Some m =>
-      match find_entry m (N.pred line, N.pred col) with
+      match find_entry m (N.pred line, if N.eqb col 0 then no_column else N.pred col) with
       | Some (_, (src, ol, oc)) => (src, N.succ ol, N.succ oc)
       | None => (f, line, col)
       end
